@@ -171,6 +171,52 @@ def c06(tier, seed, case=None):
     return v
 
 
+# --------------------------------------------------------------------------------------- C07 / C17
+C07_RULE = ('one case = one hostile input (.shp and optionally .shx) derived from valid files of all 13 types with 1..3 records: (a) every '
+            'aligned 32-bit word of either file replaced by each of 22 boundary values in both byte orders, count/length fields shifted '
+            'by k*2^28..2^31 so that i32 size arithmetic wraps back to the declared length, (thorough) all pairs of count/length '
+            'fields; (b) truncation at every length, extension by 1..64 bytes; (c) random bit flips; (d) random bytes behind a valid '
+            'file code; (e) counts 2^4..2^31 with mutually consistent lengths and no data behind them, index headers declaring 2^k '
+            'entries. Every reader entry point (new/with_shx, every next() of iter_shapes / iter_shapes_as, shape_count, read_nth_shape, '
+            'seek, a second iteration, read, read_as for rotating types) runs under catch_unwind + panic hook + an allocation window; '
+            'iterations are bounded by len(shp)+len(shx)+2 items. distinct = indices of the enumeration (each a different input); all '
+            'non-trivial')
+
+
+def _c07_like(prop, tier, seed, case, keep):
+    import c07_supervisor
+    v = _mk(prop, tier, seed, 'exploration', C07_RULE,
+            ['process aborts and hangs are attributed to the in-flight case through a progress file written before each case',
+             'allocation bound: 64 x (len(shp)+len(shx)) + 64 KiB per reader call (peak live bytes above the window start, or a single request)'])
+    profs = ('checked', 'release')
+    for prof in profs:
+        if case:
+            r = c07_supervisor.run_single(prop, prof, tier, seed, case)
+        else:
+            r = c07_supervisor.run(prop, prof, tier, seed)
+        # the engine serves two properties: keep the signatures that belong to this one
+        r['violations'] = [x for x in r['violations'] if keep(x['sig'])]
+        r['violation_counts'] = {k: n for k, n in r['violation_counts'].items() if keep(k)}
+        v.add_run(r)
+    if tier == 'thorough' and not case:
+        r = run_miri(prop, 'c07worker', tier, seed, opts={'sample': 4000}, shards=16)
+        r['violations'] = [x for x in r['violations'] if keep(x['sig'])]
+        r['violation_counts'] = {k: n for k, n in r['violation_counts'].items() if keep(k)}
+        v.add_run(r)
+    return v
+
+
+def c07(tier, seed, case=None):
+    return _c07_like('C07', tier, seed, case, lambda sig: not sig.startswith('alloc:'))
+
+
+def c17(tier, seed, case=None):
+    v = _c07_like('C17', tier, seed, case, lambda sig: sig.startswith('alloc:') or sig == 'abort')
+    worst = max([r.get('counters', {}).get('max:worst_alloc_ratio_x100', 0) for r in v.runs] + [0])
+    v.extra['worst_observed_ratio_peak_or_largest_request_over_input_bytes'] = worst / 100.0
+    return v
+
+
 # --------------------------------------------------------------------------------------- C09
 def c09(tier, seed, case=None):
     n = 6 if tier == 'quick' else 8
@@ -284,6 +330,23 @@ def c14(tier, seed, case=None):
     return v
 
 
+# --------------------------------------------------------------------------------------- C15
+def c15(tier, seed, case=None):
+    n = (4, 6, 4) if tier == 'quick' else (5, 8, 5)
+    v = _mk('C15', tier, seed, 'exploration',
+            'ALL words of length <= %d over {iterate 0/1/2/all items, read_nth_shape(i) i=0..3, seek(k) k=0..3, shape_count} on a '
+            'ShapeReader with index, <= %d over {iterate 0/1/2/all} without index, <= %d over {iterate.., seek(k), shape_count} on the '
+            'complete Reader (rows carry their index), each on a file of 3 records of pairwise different sizes and on one of equal '
+            'sizes; every call is judged by a reference model whose state is the set of start positions the property allows for the '
+            'next iteration. distinct = (reader kind, file, word); all non-trivial' % n, exhaustive=True)
+    for prof in _profiles(tier):
+        v.add_run(run_engine('C15', 'c15', prof, tier, seed, case=case))
+    if tier == 'thorough' and not case:
+        v.add_run(run_miri('C15', 'c15', tier, seed))
+    v.extra['exhaustive_scope'] = 'all call histories up to the stated lengths over the stated alphabets, n = 3 records'
+    return v
+
+
 # --------------------------------------------------------------------------------------- C16
 def c16(tier, seed, case=None):
     v = _mk('C16', tier, seed, 'exploration',
@@ -325,4 +388,4 @@ def c19(tier, seed, case=None):
     return v
 
 
-PLANS = {'C11': c11, 'C12': c12, 'C13': c13, 'C09': c09, 'C10': c10, 'C14': c14, 'C03': c03, 'C02': c02, 'C04': c04, 'C01': c01, 'C05': c05, 'C06': c06, 'C16': c16, 'C18': c18, 'C19': c19}
+PLANS = {'C07': c07, 'C17': c17, 'C15': c15, 'C11': c11, 'C12': c12, 'C13': c13, 'C09': c09, 'C10': c10, 'C14': c14, 'C03': c03, 'C02': c02, 'C04': c04, 'C01': c01, 'C05': c05, 'C06': c06, 'C16': c16, 'C18': c18, 'C19': c19}
